@@ -142,7 +142,259 @@ theorem ceil_eq (x : Nat) (hx : x < two64) : ceilJS x = ceilGo x := by
           have e := encode_trunc (neg x) hnl (by rw [expo_neg x hx]; omega) (by rw [expo_neg x hx]; exact hlt)
           rw [truncMag_neg x hx, hsn] at e
           have e' : encodeNat (truncMag x) = truncGo (neg x) := by omega
-          rw [e']
-          unfold neg; rw [if_pos (by omega)]; omega
+          have hy : truncGo (neg x) < two63 := by omega
+          have hneg : neg (truncGo (neg x)) = truncGo (neg x) + two63 := by
+            generalize truncGo (neg x) = y at *
+            unfold neg; rw [if_pos hy]
+          rw [e', hneg]; omega
+
+end GV.Proofs.FloatBits
+
+namespace GV.Proofs.FloatBits
+open GV.FloatBits
+
+theorem isInf_iff (f : Nat) (h : f < two64) : isInf f = true ↔ (f = posInf ∨ f = negInf) := by
+  have hd := decode f h
+  have hs : sign f ≤ 1 := by unfold sign; omega
+  unfold isInf posInf negInf
+  simp only [Bool.and_eq_true, beq_iff_eq]
+  unfold two63 two52 at hd
+  constructor
+  · intro ⟨h1, h2⟩; omega
+  · intro h'
+    unfold expo mant two52
+    omega
+
+theorem eqInf (f : Nat) (h : f < two64) : (eqBits f posInf || eqBits f negInf) = isInf f := by
+  unfold eqBits
+  by_cases hi : isInf f = true
+  · have := (isInf_iff f h).mp hi
+    rw [hi]
+    rcases this with h1 | h1
+    · subst h1; simp [posInf_notNaN]
+    · subst h1; simp [negInf_notNaN]
+  · have hi' : isInf f = false := by simpa using hi
+    have hn : ¬ (f = posInf ∨ f = negInf) := fun hc => hi ((isInf_iff f h).mpr hc)
+    rw [hi']
+    have h1 : (f == posInf) = false := by simp; intro hc; exact hn (Or.inl hc)
+    have h2 : (f == negInf) = false := by simp; intro hc; exact hn (Or.inr hc)
+    simp [h1, h2]
+
+/-- full-strength Modf statement — NOT claimed (false of the current code) -/
+def modf_full : Prop := ∀ f, f < two64 → modf f = modfGo f
+
+/-- the override's Modf = upstream Modf (integer part bits, sign and zero-ness of the fraction) except for negative f
+    with |f| < 1, f ≠ -0 -/
+theorem modf_partial (f : Nat) (h : f < two64) (hx : ¬ (sign f = 1 ∧ expo f < 1023 ∧ isZero f = false)) :
+    modf f = modfGo f := by
+  have hd := decode f h
+  have hs : sign f = 0 ∨ sign f = 1 := by unfold sign; omega
+  unfold modf modfGo
+  rw [eqInf f h]
+  by_cases hn : isNaN f = true
+  · have hi : isInf f = false := by unfold isInf; unfold isNaN at hn; simp at hn ⊢; intro _; exact hn.2
+    have hr : recipIsNegInf f = false := by
+      unfold recipIsNegInf; unfold isNaN at hn; simp at hn ⊢; intro _ hc; omega
+    simp [hn, hi, hr]
+  · have hn' : isNaN f = false := by simpa using hn
+    by_cases hi : isInf f = true
+    · simp [hn', hi]
+    · have hi' : isInf f = false := by simpa using hi
+      simp only [hn', hi', Bool.false_eq_true, if_false]
+      by_cases hr : recipIsNegInf f = true
+      · -- negative with |f| ≤ 2^-1024: by hypothesis f = -0
+        have hr' := hr
+        unfold recipIsNegInf at hr'
+        simp only [Bool.and_eq_true, beq_iff_eq, decide_eq_true_eq] at hr'
+        have hz : isZero f = true := by
+          cases hz : isZero f
+          · exact absurd ⟨hr'.1.1, by omega, hz⟩ hx
+          · rfl
+        have hsm : expo f < 1023 := by omega
+        simp only [hr, if_true]
+        have ht : truncGo f = f := by unfold truncGo; simp [hz]
+        have hf : hasFrac f = false := by unfold hasFrac; simp [hsm, hz]
+        simp [ht, hf, hz]
+      · have hr' : recipIsNegInf f = false := by simpa using hr
+        simp only [hr', Bool.false_eq_true, if_false]
+        by_cases hsm : expo f < 1023
+        · simp only [hsm, if_true]
+          have ht : truncGo f = 0 := by
+            by_cases hz : isZero f = true
+            · -- +0 (the -0 case is recipIsNegInf)
+              have hs0 : sign f = 0 := by
+                rcases hs with hs | hs
+                · exact hs
+                · exfalso
+                  unfold recipIsNegInf at hr'; unfold isZero at hz
+                  simp only [Bool.and_eq_true, beq_iff_eq] at hz
+                  simp [hs, hz.1, hz.2] at hr'
+              unfold isZero at hz
+              simp only [Bool.and_eq_true, beq_iff_eq] at hz
+              have : f = 0 := by unfold two63 two52 at hd; omega
+              subst this; decide
+            · have hz' : isZero f = false := by simpa using hz
+              have hs0 : sign f = 0 := by
+                rcases hs with hs | hs
+                · exact hs
+                · exact absurd ⟨hs, hsm, hz'⟩ hx
+              rw [truncGo_small f hsm (by simp [hz', hn', hi']), hs0, Nat.zero_mul]
+          rw [ht]
+        · simp only [hsm, if_false]
+
+/-- witness -0.5: upstream gives integer part -0, the override +0 -/
+theorem modf_counterexample_frac : ¬ modf_full := by
+  intro h
+  have := h 0xBFE0000000000000 (by decide)
+  revert this
+  decide
+
+/-- witness -5e-324 (smallest negative subnormal): upstream gives integer part -0, the override returns f itself -/
+theorem modf_counterexample_tiny : modf 0x8000000000000001 ≠ modfGo 0x8000000000000001 := by decide
+
+example : ¬ (sign 0x4008000000000000 = 1 ∧ expo 0x4008000000000000 < 1023 ∧ isZero 0x4008000000000000 = false) := by decide
+
+end GV.Proofs.FloatBits
+
+namespace GV.Proofs.FloatBits
+open GV.FloatBits
+
+/-- full-strength Trunc statement — NOT claimed (false of the current code) -/
+def trunc_full : Prop := ∀ x, x < two64 → trunc x = truncGo x
+
+/-- witness 3e9: `float64(int(x))` wraps at 32 bits -/
+theorem trunc_counterexample_large : ¬ trunc_full := by
+  intro h
+  have := h 0x41E65A0BC0000000 (by decide)
+  revert this
+  decide
+
+/-- witness -5e-324: `1/x == negInf` also holds when the quotient overflows, so x is returned instead of -0 -/
+theorem trunc_counterexample_tiny : trunc 0x8000000000000001 ≠ truncGo 0x8000000000000001 := by decide
+
+theorem signbit_sign0 (r : Nat) (h : sign r = 0) : signbit r = false := by
+  unfold signbit ltZero recipIsNegInf; simp [h]
+
+theorem truncMag_lt (x : Nat) (h1 : 1023 ≤ expo x) (h2 : expo x < 1054) : truncMag x < 2147483648 ∧ 1 ≤ truncMag x := by
+  have hm : mant x < 2 ^ 52 := by unfold mant two52; omega
+  unfold truncMag
+  have c1 : ¬ expo x < 1023 := by omega
+  have c2 : expo x ≤ 1075 := by omega
+  simp only [c1, c2, if_false, if_true]
+  rw [Nat.shiftRight_eq_div_pow]
+  have hq := div_split (mant x) (1075 - expo x) (by omega)
+  have hl := div_lt (mant x) (1075 - expo x) hm (by omega)
+  have t52 : two52 = 2 ^ 52 := by decide
+  rw [t52, hq]
+  have hp : 2 ^ (52 - (1075 - expo x)) ≤ 2 ^ 30 := Nat.pow_le_pow_right (by omega) (by omega)
+  have hpos : 0 < 2 ^ (52 - (1075 - expo x)) := Nat.two_pow_pos _
+  have t30 : (2:Nat) ^ 30 = 1073741824 := by decide
+  rw [t30] at hp
+  generalize 2 ^ (52 - (1075 - expo x)) = Q at *
+  generalize mant x / 2 ^ (1075 - expo x) = d at *
+  omega
+
+/-- the override's Trunc = upstream Trunc for every pattern with |x| < 2^31 (or NaN) that is not a negative non-zero
+    value of magnitude ≤ 2^-1024 -/
+theorem trunc_partial (x : Nat) (hx : x < two64) (hsmall : expo x < 1054 ∨ isNaN x = true)
+    (htiny : ¬ (recipIsNegInf x = true ∧ isZero x = false)) : trunc x = truncGo x := by
+  have hd := decode x hx
+  have hs : sign x = 0 ∨ sign x = 1 := by unfold sign; omega
+  unfold trunc
+  by_cases hn : isNaN x = true
+  · have : truncGo x = x := by unfold truncGo; simp [hn]
+    simp [hn, this]
+  · have hn' : isNaN x = false := by simpa using hn
+    have he : expo x < 1054 := by
+      rcases hsmall with h | h
+      · exact h
+      · exact absurd h hn
+    have hi' : isInf x = false := by unfold isInf; simp; omega
+    have hinf : (eqBits x posInf || eqBits x negInf) = false := by rw [eqInf x hx]; exact hi'
+    have hc : (eqBits x posInf || eqBits x negInf || isNaN x || recipIsNegInf x) = recipIsNegInf x := by
+      rw [hinf, hn']; simp
+    rw [hc]
+    by_cases hr : recipIsNegInf x = true
+    · have hz : isZero x = true := by
+        cases hz : isZero x
+        · exact absurd ⟨hr, hz⟩ htiny
+        · rfl
+      have : truncGo x = x := by unfold truncGo; simp [hz]
+      simp [hr, this]
+    · have hr' : recipIsNegInf x = false := by simpa using hr
+      simp only [hr', Bool.false_eq_true, if_false]
+      have hsx : signbit x = (sign x == 1) := signbit_spec x hn'
+      by_cases hsm : expo x < 1023
+      · -- |x| < 1: float64(int(x)) = +0, Copysign gives ±0
+        have ht : toInt32Float x = 0 := by
+          unfold toInt32Float; rw [truncMag_small x hsm]
+          rcases hs with hs | hs <;> simp [hs, encodeNat]
+        rw [ht]
+        unfold copysign
+        rw [hsx, signbit_sign0 0 (by decide)]
+        by_cases hz : isZero x = true
+        · have hs0 : sign x = 0 := by
+            rcases hs with hs | hs
+            · exact hs
+            · exfalso
+              unfold recipIsNegInf at hr'; unfold isZero at hz
+              simp only [Bool.and_eq_true, beq_iff_eq] at hz
+              simp [hs, hz.1, hz.2] at hr'
+          unfold isZero at hz
+          simp only [Bool.and_eq_true, beq_iff_eq] at hz
+          have : x = 0 := by unfold two63 two52 at hd; omega
+          subst this; decide
+        · have hz' : isZero x = false := by simpa using hz
+          rw [truncGo_small x hsm (by simp [hz', hn', hi'])]
+          rcases hs with hs | hs
+          · simp [hs]
+          · simp [hs]; decide
+      · have ⟨htl, htp⟩ := truncMag_lt x (by omega) he
+        have het := encode_trunc x hx (by omega) (by omega)
+        have hm : mant x < 2 ^ 52 := by unfold mant two52; omega
+        have hle : truncGo x ≤ x ∧ sign x * two63 + expo x * two52 ≤ truncGo x := by
+          unfold truncGo
+          have c1 : ¬ expo x < 1023 := by omega
+          have c2 : expo x < 1075 := by omega
+          have hz : isZero x = false := by unfold isZero; simp; omega
+          simp only [hz, hn', hi', Bool.or_false, Bool.false_eq_true, if_false, c1, c2, if_true]
+          have := Nat.mod_le (mant x) (2 ^ (1075 - expo x))
+          generalize mant x % 2 ^ (1075 - expo x) = r at *
+          omega
+        rcases hs with hs | hs
+        · have ht : toInt32Float x = truncGo x := by
+            unfold toInt32Float
+            have e1 : truncMag x % two32 = truncMag x := Nat.mod_eq_of_lt (by unfold two32; omega)
+            simp only [e1, hs, show ((0:Nat) == 1) = false from rfl, Bool.false_eq_true, if_false, htl, if_true]
+            rw [het, hs]; omega
+          rw [ht]
+          unfold copysign
+          have hs0 : sign (truncGo x) = 0 := by
+            have := sign_zero_lt x hx hs
+            unfold sign two63 at *; omega
+          rw [hsx, signbit_sign0 _ hs0, hs]; simp
+        · have ht : toInt32Float x = truncGo x := by
+            unfold toInt32Float
+            have e1 : truncMag x % two32 = truncMag x := Nat.mod_eq_of_lt (by unfold two32; omega)
+            have e2 : (two32 - truncMag x) % two32 = two32 - truncMag x := Nat.mod_eq_of_lt (by unfold two32; omega)
+            have e3 : ¬ (two32 - truncMag x < 2147483648) := by unfold two32; omega
+            have e4 : two32 - (two32 - truncMag x) = truncMag x := by unfold two32; omega
+            simp only [e1, hs, beq_self_eq_true, if_true, e2, e3, if_false, e4]
+            rw [het, hs]; omega
+          rw [ht]
+          unfold copysign
+          have hge := sign_one_ge x hx hs
+          have hr1 : sign (truncGo x) = 1 := by
+            unfold sign two63 two64 at *; omega
+          have hrn : isNaN (truncGo x) = false := by
+            have : expo (truncGo x) = expo x := by
+              unfold two63 two52 at *
+              rw [hs] at hle
+              unfold expo two52; omega
+            unfold isNaN; simp; omega
+          rw [hsx, signbit_spec _ hrn, hr1, hs]; simp
+
+example : (expo 0x4008000000000000 < 1054 ∨ isNaN 0x4008000000000000 = true) ∧
+    ¬ (recipIsNegInf 0x4008000000000000 = true ∧ isZero 0x4008000000000000 = false) := by decide
 
 end GV.Proofs.FloatBits
